@@ -1925,5 +1925,111 @@ pub proof fn lemma_vli_val_bound(s: Seq<u8>, n: nat)
             requires (s[n - 1] % 128) as nat <= 127;
     }
 }
+// logging only
+#[verifier::external_body] pub fn log_packet(prefix: &str, packet: &MqttPacket) { unimplemented!() }
+
+// while the body is being read: the fixed header is known, and no more than the announced number of body bytes has been buffered
+pub open spec fn body_wf(d: Decoder) -> bool {
+    d.first_byte is Some && (d.remaining_length matches Some(n) && d.scratch@.len() <= n)
+}
+
+impl Decoder {
+//@fn gneiss-mqtt/src/decode.rs Decoder::process_read_packet_body props=C03,C11
+    requires body_wf(*old(self)), old(self).state == DecoderState::ReadPacketBody,
+    ensures
+        ({
+            let n = old(self).remaining_length->Some_0 as int;
+            let need = n - old(self).scratch@.len();
+            let fb = old(self).first_byte->Some_0;
+            // not all of the body has arrived: everything is buffered, nothing decoded - whatever the chunk size
+            &&& need > bytes@.len() ==> r.0 is OutOfData && r.1@.len() == 0 && final(self).scratch@ == old(self).scratch@ + bytes@
+                    && final(self).state == old(self).state && final(self).first_byte == old(self).first_byte && final(self).remaining_length == old(self).remaining_length
+                    && final(context).decoded_packets@ == old(context).decoded_packets@ && body_wf(*final(self))
+            // the body is complete: the packet is decoded from EXACTLY the announced number of bytes after the header - the buffered ones followed by the
+            // first `need` new ones - so the result does not depend on how the stream was cut (C03); the rest of the chunk is handed back
+            &&& need <= bytes@.len() ==> {
+                    let body = old(self).scratch@ + bytes@.subrange(0, need);
+                    &&& (r.0 is Continue || r.0 is TerminalError)
+                    &&& r.0 is Continue ==> r.1@ == bytes@.subrange(need, bytes@.len() as int) && final(context).decoded_packets@.len() == old(context).decoded_packets@.len() + 1
+                            && final(context).decoded_packets@.subrange(0, old(context).decoded_packets@.len() as int) == old(context).decoded_packets@
+                            && final(self).state == DecoderState::ReadPacketType && final(self).scratch@.len() == 0
+                    &&& r.0 is TerminalError ==> final(context).decoded_packets@ == old(context).decoded_packets@
+                    // (for the most frequent packet: what was decoded is what the PUBLISH specification says about that body)
+                    &&& (fb >> 4u8) == 3 ==> (match publish_spec(fb, body, old(context).protocol_version == ProtocolVersion::Mqtt5) {
+                            Some(v) => r.0 is Continue && (*final(context).decoded_packets@.last() matches MqttPacket::Publish(p) && publish_matches(p, v)),
+                            None => r.0 is TerminalError })
+                }
+            &&& final(context).maximum_packet_size == old(context).maximum_packet_size && final(context).protocol_version == old(context).protocol_version
+            &&& mut_ref_future(final(context).decoded_packets) == mut_ref_future(old(context).decoded_packets)
+        }),
+//@@at before "match decode_packet(self.first_byte.unwrap(), packet_slice, context.protocol_version) {"
+        proof {
+            let need = old(self).remaining_length->Some_0 as int - old(self).scratch@.len();
+            let body = old(self).scratch@ + bytes@.subrange(0, need);
+            assert(bytes_needed as int == need);
+            assert(packet_slice@ =~= body);
+            assert(self.first_byte == old(self).first_byte && self.state == old(self).state);
+        }
+//@@at after "context.decoded_packets.push_back(packet);"
+                proof {
+                    assert(context.decoded_packets@ == old(context).decoded_packets@.push(packet));
+                    assert(context.decoded_packets@.subrange(0, old(context).decoded_packets@.len() as int) =~= old(context).decoded_packets@);
+                    assert(context.decoded_packets@.last() == packet);
+                }
+//@end
+}
+
+// the decoder between two reads (C03: "however the byte stream is split into reads"); `strict`: between two calls a body is never complete
+// (a complete body is decoded in the call that completed it) - inside the loop it can be, for a moment (a packet without a body)
+pub open spec fn dec_wf_gen(d: Decoder, strict: bool) -> bool {
+    match d.state {
+        DecoderState::ReadPacketType => d.scratch@.len() == 0,
+        DecoderState::ReadTotalRemainingLength => len_prefix_wf(d) && d.first_byte is Some,
+        DecoderState::ReadPacketBody => body_wf(d) && (strict ==> d.scratch@.len() < d.remaining_length->Some_0),
+        _ => true,
+    }
+}
+pub open spec fn dec_wf(d: Decoder) -> bool { dec_wf_gen(d, true) }
+pub open spec fn dec_pending(d: Decoder) -> int { if d.state == DecoderState::ReadPacketBody && d.scratch@.len() == d.remaining_length->Some_0 { 1int } else { 0int } }
+pub open spec fn dec_measure(d: Decoder, left: int) -> int { 2 * left + (if d.state == DecoderState::ReadPacketBody { 1int } else { 0int }) }
+
+//@const gneiss-mqtt/src/decode.rs DECODE_BUFFER_DEFAULT_SIZE
+impl Decoder {
+//@fn gneiss-mqtt/src/decode.rs Decoder::new props=C03,C11
+    // a new decoder is between two packets: the induction over all reads starts here (reset()/reset_for_new_connection() re-establish it)
+    ensures dec_wf(r), r.state == DecoderState::ReadPacketType,
+//@end
+
+//@fn gneiss-mqtt/src/decode.rs Decoder::decode_bytes props=C03,C11 desugar
+    requires dec_wf(*old(self)),
+    ensures dec_wf(*final(self)),
+        // (the output reference itself is not re-seated: what the engine unit's opaque Decoder shim assumes, proved here)
+        mut_ref_future(final(context).decoded_packets) == mut_ref_future(old(context).decoded_packets),
+        // packets are only appended, and at most one per byte handed in
+        old(context).decoded_packets@.is_prefix_of(final(context).decoded_packets@),
+        final(context).decoded_packets@.len() <= old(context).decoded_packets@.len() + bytes@.len(),
+        final(context).maximum_packet_size == old(context).maximum_packet_size, final(context).protocol_version == old(context).protocol_version,
+        // an error is terminal for the connection, and a decoder in the terminal state reports an error for every further read
+        r is Err ==> final(self).state == DecoderState::TerminalError,
+        old(self).state == DecoderState::TerminalError ==> r is Err,
+//@@loop 0
+        invariant
+            old(context).decoded_packets@.is_prefix_of(context.decoded_packets@),
+            context.maximum_packet_size == old(context).maximum_packet_size, context.protocol_version == old(context).protocol_version,
+            context.decoded_packets@.len() <= old(context).decoded_packets@.len() + bytes@.len(),
+            mut_ref_future(context.decoded_packets) == mut_ref_future(old(context).decoded_packets),
+            // as long as no step has failed: the decoder is between two steps, and packets completed (or about to complete without
+            // consuming anything) <= bytes consumed
+            !(decode_result is TerminalError) ==> {
+                &&& dec_wf_gen(*self, false) && current_slice@.len() <= bytes@.len()
+                &&& context.decoded_packets@.len() + dec_pending(*self) + current_slice@.len() <= old(context).decoded_packets@.len() + bytes@.len()
+            },
+            decode_result is OutOfData ==> dec_wf(*self),
+            old(self).state == DecoderState::TerminalError ==> (self.state == DecoderState::TerminalError && !(decode_result is OutOfData)),
+        ensures !(decode_result is Continue),
+        decreases (if decode_result is Continue { dec_measure(*self, current_slice@.len() as int) + 1 } else { 0int }),
+//@end
+}
+
 } // verus!
 fn main() {}
